@@ -721,6 +721,10 @@ func Render(p *Program, pkg, modPath string) string {
 	case "method":
 		fmt.Fprintf(&b, "\ntype recv_%s struct{ in *probe.In }\n\nfunc (rc *recv_%s) do(%s) error {\n\tin := rc.in\n\treturn %s\n}\n", p.ID, p.ID, strings.TrimPrefix(genericParams(p), ", "), call)
 	}
+	if usesTime && p.F.TimeImp == "alias" {
+		// the file imports time under another name: its own mentions of the type follow
+		return strings.ReplaceAll(b.String(), "time.Time", "tm.Time")
+	}
 	return b.String()
 }
 
